@@ -8,7 +8,6 @@ HOOKS = {
 }
 ENGINES = [
     {"name": "sx", "path": "/verif/engine/sx.py", "serves_properties": [], "kind_free_text": "own z3-backed re-execution (concolic, exhaustive DFS over branch decisions) engine running the real Python functions on integer/boolean proxies; every path re-validated concretely"},
-    {"name": "crosshair", "path": "/verif/engine/xhair.py", "serves_properties": [], "kind_free_text": "CrossHair 0.0.110 (symbolic execution of Python bytecode with z3) for string-valued inputs and as second engine"},
 ]
 NOTES = ("Solver-based checking of the real code: see DESIGN.md. Every check: ./check <ID> --tier quick|thorough. "
          "Exit 0 held / 1 VIOLATION / 3 HARNESS-ERROR. Known findings and repaired defects: known_findings.json.")
@@ -40,7 +39,7 @@ _GEOM_NOTE = ("NumPy's arithmetic on block values is an uninterpreted symbol (st
 CHECKS["C01"] = {
     "engine": "sx",
     "technique": "bounded symbolic execution (z3) of the real construction path and real task bodies on abstract arrays: element provenance vs NumPy index maps",
-    "text": "For 24 operation scenarios (elementwise incl. broadcasting and differently chunked inputs, sum/mean tree reductions, slicing with step, integer index, concat, stack, expand/squeeze, repeat, flip, cumulative_sum, roll, unstack, rechunk, permute_dims, broadcast_to, blocks view) the real cubed construction code runs on metadata-only arrays whose length, per-input chunk sizes and parameters are solver variables; the real plan is then evaluated on abstract blocks (real key functions, real map_nested, real block functions) and for a symbolic output element the provenance (which source elements, which argument position, which multiplicity for reductions) must equal NumPy's definition. Decided by z3 over all geometries within the bound (lengths <= 6 quick / 10 thorough), not sampled. Catalogue (quick): 50 scenarios incl. pad, diff/map_overlap, tile, where, moveaxis/3-d permutations, outer, vecdot, matmul, integer-array and integer+negative-step indexing, reshape over both axes and 1d->2d, tril/triu, max, concat/roll/flip/cumulative_sum along axis 1, arange with either step sign, store into an existing target.",
+    "text": "For 24 operation scenarios (elementwise incl. broadcasting and differently chunked inputs, sum/mean tree reductions, slicing with step, integer index, concat, stack, expand/squeeze, repeat, flip, cumulative_sum, roll, unstack, rechunk, permute_dims, broadcast_to, blocks view) the real cubed construction code runs on metadata-only arrays whose length, per-input chunk sizes and parameters are solver variables; the real plan is then evaluated on abstract blocks (real key functions, real map_nested, real block functions) and for a symbolic output element the provenance (which source elements, which argument position, which multiplicity for reductions) must equal NumPy's definition. Decided by z3 over all geometries within the bound (lengths <= 6 quick / 10 thorough), not sampled. Catalogue (quick): 50 scenarios incl. pad, diff/map_overlap, tile, where, moveaxis/3-d permutations, outer, vecdot, matmul, integer-array and integer+negative-step indexing, reshape over both axes and 1d->2d, tril/triu, max, concat/roll/flip/cumulative_sum along axis 1, arange with either step sign, store into an existing target. Second catalogue (harness/c01b.py): sums over other axes / all axes / keepdims, min over 2-d, nansum, nanmean, apply_gufunc with a core dimension and with broadcasting, 2-d rechunk under tight symbolic memory budgets (multi-stage plans, both planners: every element preserved), take along either axis, 2-d indexing with newaxis/ellipsis/steps, negative-axis expand_dims/squeeze, broadcast_arrays, matrix_transpose/.T/.mT, scalar and 0-d operands, clip with array bounds, cumulative_prod, diff of order 2 / with append / prepend, symmetric pad, tensordot values with chunked contraction, creation functions as leaves.",
     "note": _GEOM_NOTE,
 }
 CHECKS["C12"] = {
@@ -52,7 +51,7 @@ CHECKS["C12"] = {
 CHECKS["C17"] = {
     "engine": "sx",
     "technique": "bounded symbolic execution (z3) of the real construction path and one task per operation: type and phase of every reachable exception",
-    "text": "For the same catalogue and all geometries within the bound: an exception escaping construction is a ValueError/TypeError/NotImplementedError/IndexError (any other type, e.g. AssertionError or KeyError, is a violation), and a construction that succeeds yields operations whose key function and block function raise for no block coordinate, whose keys name existing blocks and whose blocks fit their regions. Known finding: scan's internal assertion (listed by signature; any other violation still fails the check).",
+    "text": "For the same catalogue and all geometries within the bound: an exception escaping construction is a ValueError/TypeError/NotImplementedError/IndexError (any other type, e.g. AssertionError or KeyError, is a violation), and a construction that succeeds yields operations whose key function and block function raise for no block coordinate, whose keys name existing blocks and whose blocks fit their regions. (scan's internal assertion, once a known finding, is repaired: /repo b0402de).",
     "note": _GEOM_NOTE + " Data-dependent failures inside NumPy and executor/storage faults are outside.",
 }
 CHECKS["C05"] = {
@@ -82,7 +81,7 @@ CHECKS["C14"] = {
 CHECKS["C07"] = {
     "engine": "sx",
     "technique": "bounded symbolic execution (z3) of the real async_map_dag/async_map_unordered/DAG traversal on scheduler stubs: completion subsets, interleavings and clock are solver variables; barrier asserted over the event trace",
-    "text": "For real finalized plans (chain with unequal task counts, diamond, independent branches, multi-output op, implicit rechunk; optimize on/off) and every schedule within the bound (which pending futures complete at each wake-up, in which order they are seen, which generation-mate is polled next, clock increments; compute_arrays_in_parallel on/off, batch_size None/1/2, backups on/off): every task is submitted only after a successful completion of every task of every operation producing its inputs and of every create-arrays task, and an operation's stream ends only when all its tasks completed. SingleThreadedExecutor.execute_dag: same, for every subset of operations marked computed. Also on DAGs flagged the way FinalizedPlan.execute(resume=True) flags them (array nodes flagged, every subset of operations flagged computed): the barrier holds among the operations left to run; the barrier is checked at every submission.",
+    "text": "For real finalized plans (chain with unequal task counts, diamond, independent branches, multi-output op, implicit rechunk; optimize on/off) and every schedule within the bound (which pending futures complete at each wake-up, in which order they are seen, which generation-mate is polled next, clock increments; compute_arrays_in_parallel on/off, batch_size None/1/2, backups on/off): every task is submitted only after a successful completion of every task of every operation producing its inputs and of every create-arrays task, and an operation's stream ends only when all its tasks completed. SingleThreadedExecutor.execute_dag: same, for every subset of operations marked computed. Also on DAGs flagged the way FinalizedPlan.execute(resume=True) flags them (array nodes flagged, every subset of operations flagged computed): the barrier holds among the operations left to run; the barrier is checked at every submission. Executor wiring: the real ThreadsExecutor / ProcessesExecutor entry (_async_execute_dag, threads_/processes_create_futures_func, unpickle_and_call after a real cloudpickle round trip) on the same plans with only the worker pool replaced: every submission carries the function, config and an input of ONE operation of the plan, a stage call failing k times is attempted min(k+1, retries+1) times (threads), and barrier and event order hold for every schedule and every compute_arrays_in_parallel / batch_size / retries setting in the bound.",
     "note": "asyncio.wait/Future/time/aiostream replaced by stubs/sched.py (validated against a real event loop at check start); schedules with more than the stated number of 'still running' observations and task failures (C08) are outside; a task is taken to read its inputs between submit and complete.",
 }
 CHECKS["C04"] = {
